@@ -291,3 +291,12 @@ pub mod prelude {
         RtcpPacketWriterExt,
     };
 }
+
+/// Verification hooks (off by default): doors to private items for the checks in /verif.
+#[cfg(feature = "verif-hooks")]
+pub mod verif {
+    pub use crate::compound::verif_hooks as compound;
+    pub use crate::feedback::nack::verif_hooks as nack;
+    pub use crate::feedback::sli::verif_hooks as sli;
+    pub use crate::sdes::verif_hooks as sdes;
+}
